@@ -63,6 +63,7 @@ class C17(Campaign):
     thorough_runs = 40000
     fault_kinds = ["snapshot-deepcopy@op", "snapshot-pickle@op", "snapshot-before-activation (async)",
                    "copy of a copy", "event triggers bound onto the copied model (bind_events_to)",
+                   "listener classes with value-based __eq__/__hash__ (a copy equals its original)",
                    "snapshot-after-failed-op", "diverging suffixes, interleaved"]
     rule = ("one run = a generated machine (all option combinations rtc x allow x state_field x start_value, "
             "custom attribute, model and listener callbacks, sync/async) driven through a prefix, copied with "
@@ -88,6 +89,7 @@ class C17(Campaign):
             sc["driver"] = rnd.choice(["sync", "inloop"])
         if rnd.random() < 0.4:
             prog["model"]["field"] = rnd.choice(["status", "st_x"])
+        prog["listener_eq"] = rnd.random() < 0.3
         new = sc["ops"][0]
         new["custom_attr"] = True
         # event triggers bound onto the model (bind_events_to): a copy's model must drive the copy
